@@ -1214,6 +1214,11 @@ def _dur_split(ex, d):
     return z3.If(neg, q - 1, q), z3.If(neg, r + 1000000000, r)
 
 
+@intrinsic('(time.Duration).Nanoseconds')
+def _dur_ns(ex, args, ins, where):
+    return args[0]
+
+
 @prefix_intrinsic('(time.Time).', '(*time.Time).', 'time.')
 def _time(ex, fname, args, ins, where):
     if fname.startswith('(time.Time).'):
@@ -1223,8 +1228,17 @@ def _time(ex, fname, args, ins, where):
         m = fname[len('(*time.Time).'):]
         t = ex.load(args[0], where, None)
     else:
-        if fname == 'time.Since':
-            raise Unsupported('time.Since')
+        if fname == 'time.Since':   # == time.Now().Sub(t), with the same arbitrary clock as time.Now
+            now = _time_now(ex, [], ins, where)
+            u = args[0]
+            if not isinstance(u, TimeV):
+                raise Unsupported('time.Since of %r' % (u,))
+            i64 = ex.t_int64
+            ds = ex.binop('-', now.sec, u.sec, i64, i64, i64)
+            dn = ex.binop('-', now.nsec, u.nsec, i64, i64, i64)
+            return ex.binop('+', ex.binop('*', ds, 1000000000, i64, i64, i64), dn, i64, i64, i64)
+        if fname == '(time.Duration).Nanoseconds':
+            return args[0]
         if fname in ('(time.Duration).Seconds',):
             raise Unsupported('Duration.Seconds (float)')
         return NotImplemented
